@@ -10,6 +10,7 @@ sys.path.insert(0, os.path.dirname(os.path.abspath(__file__)))
 from vlib import common as C  # noqa: E402
 from vlib import engine_checks  # noqa: E402
 from vlib import cmp_checks  # noqa: E402
+from vlib import emplace_checks  # noqa: E402
 
 ENGINE_PROPS = set(engine_checks.LEVEL)
 
@@ -21,6 +22,8 @@ def cmd_check(args):
         return engine_checks.run_check(prop, tier)
     if prop in ("C13", "C14"):
         return cmp_checks.run_check(prop, tier)
+    if prop == "C15":
+        return emplace_checks.run_check(prop, tier)
     print("no check registered for %s" % prop)
     return 2
 
